@@ -382,7 +382,7 @@ def gen_custom(ctx):
     rng = ctx.rng
     for N in all_bases(ctx.tier):
         fields = []
-        for w in [1, 2, 3, 7, 8, 9, 16, 17, 32, 33, 64]:
+        for w in [1, 2, 3, 7, 8, 9, 16, 17, 24, 32, 33, 48, 64]:
             if w > N:
                 continue
             exhaustive_opts = [False] + ([True] if w <= 3 else [])
@@ -426,7 +426,10 @@ def gen_bases(ctx):
 def gen_enums(ctx):
     rng = ctx.rng
     # valid enums of every size class
-    sizes = list(range(1, 9)) + [9, 15, 16, 17, 31, 32, 33, 63, 64]
+    # every size class; whole-byte sizes that are not native integers (24, 40, 48, 56) are their own class
+    sizes = list(range(1, 9)) + [9, 15, 16, 17, 24, 31, 32, 33, 40, 48, 56, 63, 64]
+    if ctx.tier == "thorough":
+        sizes = list(range(1, 65))
     for n in sizes:
         if n <= 6:
             valid_enum(ctx, n, True, ["enums"], sep=rng.choice(["=", ":"]))
@@ -444,6 +447,10 @@ def gen_enums(ctx):
     mk_enum(ctx, 3, [5, 5, 0, 7, 7, 7], "conditional", ["enums"], cfgs=["off", "on", None, "off", "off", "on"])
     mk_enum(ctx, 9, [300, 300, 1], "conditional", ["enums"], cfgs=["off", "on", None], docs=True)
     mk_enum(ctx, 2, [0, 1, 2, 3, 3], "conditional", ["enums"], cfgs=[None, None, None, "on", "off"])
+    # exactly 2^N declared variants, but cfg alternatives share a discriminant: a value is left over and must give Err
+    mk_enum(ctx, 2, [0, 1, 1, 2], "conditional", ["enums"], cfgs=[None, "on", "off", None])
+    mk_enum(ctx, 1, [0, 0], "conditional", ["enums"], cfgs=["on", "off"])
+    mk_enum(ctx, 3, [0, 1, 2, 3, 4, 5, 6, 6], "conditional", ["enums"], cfgs=[None, None, None, None, None, None, "off", "on"])
     # hex / underscore literals
     mk_enum(ctx, 8, [16, 255, 1], "false", ["enums"], discr_texts=["0x10", "0xFF", "0b1"])
     # ---------------- invalid stream ----------------
